@@ -49,6 +49,7 @@ type Opts struct {
 	FieldForms             bool // fields of project classes may be annotated (@Autowired on the same or the line before), static / transient / volatile, and declared two to a declaration (`Foo a, b;`) (audit_c02.go) (C02)
 	TwinReferrers          bool // with TwinNames: a class of the package of one of two namesakes refers to its package mate (audit_c02.go) (C02)
 	InterfaceBodies        bool // methods of interfaces may be `default` or `static` methods with a body (audit_c02.go) (C02)
+	FieldChainCalls        bool // calls on a static field of a library class: System.out.println(..), System.err.printf(..) (audit_c02.go) (C02)
 }
 
 // Ann is an annotation as the model records it.
